@@ -112,6 +112,7 @@ def run(ctx: Ctx):
         ctx.check(_av11._is_str(text) and plain == "" and len(holes) == 4, "R11.b", w.key("write"), "all sections are written, nothing else", f"write_ODE_to_ode_file writes {_av11.show(text)[:120]}: not exactly the four sections joined", w.where())
     cls = sm.cls("codegen/ode.py", "GotranODECodePrinter")
     check_writer_sections(ctx, "R11.b", cls)
+    check_comment_header(ctx, "R11.b", cls)
     check_writer_helpers(ctx, "R11.b")
 
 
@@ -154,6 +155,57 @@ SECTIONS = {
     "print_parameters": ("parameters", ("sym", "self.ode.parameters"), "print_ScalarParam", False),
     "print_assignments": ("expressions", ("op", "+", ("sym", "self.ode.intermediates"), ("sym", "self.ode.state_derivatives")), "print_assignment", True),
 }
+
+
+def check_comment_header(ctx: Ctx, rule: str, cls):
+    """print_comments: the text of a comment reaches the file only after it has been cut at its own line breaks (split on
+    "\\n" / splitlines / a replace of "\\n"), so that every physical line of the header gets its `#`.  Comment texts of
+    imported models (Myokit `desc`, CellML documentation) span several lines; a line written without `#` is model text."""
+    from sa import av as _av
+
+    from . import util
+    from .c03 import _branches
+
+    f = cls.methods.get("print_comments")
+    if f is None:
+        return
+    v = util.value_of(ctx, f)
+    key = f.key("every-line-prefixed")
+    if _av.has_unk(v):
+        ctx.undecided(rule, key, "what print_comments returns is not understood", f.where())
+        return
+
+    def cut(t):
+        if t[0] != "mcall":
+            return False
+        if t[2] == "splitlines":
+            return True
+        return t[2] in ("split", "replace") and bool(t[3]) and t[3][0][0] == "c" and t[3][0][1] in ("\n", "\r\n")
+
+    def bare(t, under=False):
+        if not isinstance(t, tuple):
+            return []
+        if t and t[0] == "attr" and t[-1] == "text" and not under:
+            return [t]
+        if t and t[0] == "call" and t[1] in ("len", "bool"):
+            return []
+        u = under or (bool(t) and isinstance(t[0], str) and cut(t))
+        out = []
+        for x in t:
+            out += bare(x, u)
+        return out
+
+    n = 0
+    odd = []
+    for conds, leaf in _branches(v):
+        if leaf[0] in ("raise", "c") or any(c == ("not", leaf) or c == _av.mk_not(leaf) for c in conds):
+            continue  # empty on this path
+        n += 1
+        odd += bare(leaf)
+    if not n:
+        ctx.undecided(rule, key, "no path of print_comments returns comment text", f.where())
+        return
+    ctx.check(not odd, rule, key, "comment text is cut at its line breaks before the `#` prefixes are added", "print_comments writes a comment's text without cutting it at its own line breaks: the second line of a multi-line description (Myokit / CellML imports) is written without `#` and the saved file is rejected or read as model text", f.where())
 
 
 def check_writer_sections(ctx: Ctx, rule: str, cls):
